@@ -609,7 +609,12 @@ func main() {
 		hs = append(hs, h)
 	}
 	for i := 0; i < n; i++ {
-		h := genHistory(f.Rand(i), maxLen)
+		var h History
+		if i%5 == 4 {
+			h = genTypeHistory(f.Rand(i), maxLen)
+		} else {
+			h = genHistory(f.Rand(i), maxLen)
+		}
 		if i%4 == 3 {
 			h.Mode = "stmts"
 		}
